@@ -35,7 +35,8 @@ Definition is_null (v : value) : bool := match v with VNull => true | _ => false
 Inductive utest :=
 | ULit (s : simple) (n : N)                 (* literal: 5, "s5", true *)
 | ULt (n : N) | ULe (n : N) | UGt (n : N) | UGe (n : N)
-| UIv (lo : N) (lc : bool) (hi : N) (hc : bool).   (* [lo..hi], (lo..hi], ... *)
+| UIv (lo : N) (lc : bool) (hi : N) (hc : bool)    (* [lo..hi], (lo..hi], ... *)
+| UNull.                                    (* the literal null as one alternative: `? = null`, false for every value that is not null *)
 
 Definition utest_ok (t : utest) (v : value) : bool :=
   match v with
@@ -48,6 +49,7 @@ Definition utest_ok (t : utest) (v : value) : bool :=
       | UGe n => simple_eqb s SNumber && N.leb n p
       | UIv lo lc hi hc =>
           simple_eqb s SNumber && (if lc then N.leb lo p else N.ltb lo p) && (if hc then N.leb p hi else N.ltb p hi)
+      | UNull => false
       end
   | _ => false          (* a list, a context or null is in no test of this language *)
   end.
@@ -56,6 +58,18 @@ Definition allowed := option (list utest).
 
 Definition av_ok (av : allowed) (v : value) : bool :=
   match av with None => true | Some ts => existsb (fun t => utest_ok t v) ts end.
+
+(* The list of alternatives as the code evaluates it (feel-evaluator eval_in_list): the alternatives are tried in the order written, the first
+   one satisfied answers true, and an alternative that is the literal null ends the scan with the answer null - which check_allowed_values takes
+   for `not allowed` (is_true).  av_ok above is the property's reading (any alternative); C11/NullAlt.v relates the two. *)
+Fixpoint alts_code (ts : list utest) (v : value) : bool :=
+  match ts with
+  | [] => false
+  | UNull :: _ => false
+  | t :: r => utest_ok t v || alts_code r v
+  end.
+Definition av_ok_code (av : allowed) (v : value) : bool :=
+  match av with None => true | Some ts => alts_code ts v end.
 
 (* check_allowed_values *)
 Definition check_av (av : allowed) (v : value) : value := if av_ok av v then v else VNull.
